@@ -239,6 +239,63 @@ Fixpoint replace_locals (fuel : nat) (s : string) : string :=
   end.
 Definition show_Z (z : Z) : string := NilZero.string_of_int (Z.to_int z).
 
+(* PINNED: s.replace(p, "") for a non-empty p: every occurrence -- refs.forwardref BEFORE /repo 31a6d65; kept only for
+   the witness that the old text function differs (dyn/C17/C17.v) *)
+Fixpoint strip_prefix (p s : string) : option string :=
+  match p, s with
+  | EmptyString, _ => Some s
+  | String a p', String b s' => if Ascii.eqb a b then strip_prefix p' s' else None
+  | _, _ => None
+  end.
+Fixpoint remove_all_pinned_fuel (fuel : nat) (p s : string) : string :=
+  match fuel with
+  | O => s
+  | S f =>
+      match s with
+      | EmptyString => EmptyString
+      | String c r =>
+          match strip_prefix p s with
+          | Some rest => remove_all_pinned_fuel f p rest
+          | None => String c (remove_all_pinned_fuel f p r)
+          end
+      end
+  end.
+Definition remove_all_pinned (p s : string) : string :=
+  match p with EmptyString => s | _ => remove_all_pinned_fuel (S (String.length s)) p s end.
+(* re.sub(rf"(?<![\w.]){re.escape(p)}", "", s) for a non-empty p (refs.forwardref since /repo 31a6d65, p = module + "."):
+   an occurrence of p is dropped only where it LEADS a dotted name -- the character before it in the ORIGINAL text is
+   neither a word character nor "."; occurrences are taken left to right, non-overlapping.  [ok]: the lookbehind
+   holds at the current position; fuel = length of s + 1.  (Bytes >= 128 count as word characters: the UTF-8
+   bytes of non-ASCII letters; generated names are ASCII.) *)
+Definition word_char (c : ascii) : bool :=
+  let n := nat_of_ascii c in
+  (Nat.leb 48 n && Nat.leb n 57) || (Nat.leb 65 n && Nat.leb n 90) || (Nat.leb 97 n && Nat.leb n 122)
+  || Nat.eqb n 95 || Nat.leb 128 n.
+Definition lead_stop (c : ascii) : bool := word_char c || Ascii.eqb c "."%char.
+Fixpoint last_lead_ok (p : string) : bool :=
+  match p with
+  | EmptyString => true
+  | String c EmptyString => negb (lead_stop c)
+  | String _ r => last_lead_ok r
+  end.
+Fixpoint remove_lead_fuel (fuel : nat) (ok : bool) (p s : string) : string :=
+  match fuel with
+  | O => s
+  | S f =>
+      match s with
+      | EmptyString => EmptyString
+      | String c r =>
+          match (if ok then strip_prefix p s else None) with
+          | Some rest => remove_lead_fuel f (last_lead_ok p) p rest
+          | None => String c (remove_lead_fuel f (negb (lead_stop c)) p r)
+          end
+      end
+  end.
+Definition remove_lead (p s : string) : string :=
+  match p with EmptyString => s | _ => remove_lead_fuel (S (String.length s)) true p s end.
+(* refs.forwardref(name, module=module): the text of the reference it builds (/repo 31a6d65) *)
+Definition fref_name (module name : string) : string := remove_lead (module +++ ".") name.
+
 (* ------------------------------------------------------------------ the interpreter's side *)
 Section WithTables.
 Variable T : tables.
@@ -616,7 +673,7 @@ Fixpoint unwrap_fuel (n : nat) (t : ity) {struct n} : res ity :=
     let step :=
       match t with
       | IAlias _ v => unwrap_fuel k v
-      | IAliasStr _ s => Ok (IForwardRef s (Some user_module))
+      | IAliasStr _ s => Ok (IForwardRef (fref_name user_module s) (Some user_module))   (* refs.forwardref(tv, module=t.__module__) *)
       | INewType _ s => unwrap_fuel k s
       | _ => Ok t
       end in
